@@ -26,6 +26,14 @@ pub struct Case {
     /// thread ends, later hot_reload calls must degrade to no-ops
     #[serde(default)]
     watcher_dies_after: Option<u8>,
+    /// afterwards: that many notifications of one leaf are sent back to back by a feeder thread while a single
+    /// caller keeps calling hot_reload: one call is one pass, it reloads the leaf at most once
+    #[serde(default)]
+    stream: u16,
+    /// afterwards: rounds of {fresh cache, 2..6 callers spinning on hot_reload, the source drops its sender at a
+    /// swept moment}: every caller must come back (the reloader stops while requests are in flight)
+    #[serde(default)]
+    stop_races: u16,
 }
 
 static STARTED: AtomicU64 = AtomicU64::new(0);
@@ -34,6 +42,107 @@ static IDLE_ACTIVITY: AtomicU64 = AtomicU64::new(0);
 static MAX_IN_FLIGHT: AtomicU64 = AtomicU64::new(0);
 static WATCH_TAG: AtomicU64 = AtomicU64::new(0);
 static HARNESS_TIDS: std::sync::Mutex<Vec<u32>> = std::sync::Mutex::new(Vec::new());
+static STREAM_READS: AtomicU64 = AtomicU64::new(0);
+
+/// The source handed to the reloader thread: its destructor (run when that thread stops, just before the thread
+/// tells the waiting callers that it is gone) parks until the harness releases it, so that the stop can be aimed
+/// at the instant the callers enter hot_reload.
+struct ParkedOnDrop {
+    inner: Box<dyn assets_manager::source::Source + Send>,
+    gate: Arc<StopGate>,
+}
+#[derive(Default)]
+struct StopGate {
+    parked: AtomicBool,
+    released: AtomicBool,
+}
+impl assets_manager::source::Source for ParkedOnDrop {
+    fn read(&self, id: &str, ext: &str) -> std::io::Result<assets_manager::source::FileContent<'_>> {
+        self.inner.read(id, ext)
+    }
+    fn read_dir(&self, id: &str, f: &mut dyn FnMut(assets_manager::source::DirEntry)) -> std::io::Result<()> {
+        self.inner.read_dir(id, f)
+    }
+    fn exists(&self, entry: assets_manager::source::DirEntry) -> bool {
+        self.inner.exists(entry)
+    }
+}
+impl Drop for ParkedOnDrop {
+    fn drop(&mut self) {
+        self.gate.parked.store(true, SeqCst);
+        let mut spins = 0u64;
+        while !self.gate.released.load(SeqCst) && spins < 50_000_000 {
+            spins += 1;
+            if spins % 256 == 0 {
+                std::thread::yield_now();
+            } else {
+                std::hint::spin_loop();
+            }
+        }
+    }
+}
+struct GateSource {
+    inner: crate::memsrc::MemSource,
+    gate: Arc<StopGate>,
+}
+impl assets_manager::source::Source for GateSource {
+    fn read(&self, id: &str, ext: &str) -> std::io::Result<assets_manager::source::FileContent<'_>> {
+        self.inner.read(id, ext)
+    }
+    fn read_dir(&self, id: &str, f: &mut dyn FnMut(assets_manager::source::DirEntry)) -> std::io::Result<()> {
+        self.inner.read_dir(id, f)
+    }
+    fn exists(&self, entry: assets_manager::source::DirEntry) -> bool {
+        self.inner.exists(entry)
+    }
+    fn make_source(&self) -> Option<Box<dyn assets_manager::source::Source + Send>> {
+        Some(Box::new(ParkedOnDrop { inner: self.inner.make_source()?, gate: self.gate.clone() }))
+    }
+    fn configure_hot_reloading(&self, events: assets_manager::hot_reloading::EventSender) -> Result<(), assets_manager::BoxedError> {
+        self.inner.configure_hot_reloading(events)
+    }
+}
+
+/// Rounds of a reloader that stops (its source lets go of the sender) at the instant callers enter hot_reload.
+fn stop_races(rounds: u16, callers: u8) {
+    use crate::memsrc::MemSource;
+    use assets_manager::AssetCache;
+    for round in 0..rounds as u32 {
+        let src = MemSource::new(true);
+        src.tree().put("a", "v", b"1".to_vec(), Variant::Buffer);
+        let gate = Arc::new(StopGate::default());
+        let cache = AssetCache::with_source(GateSource { inner: src.handle(), gate: gate.clone() });
+        let _ = cache.load::<crate::props::common::Ver>("a");
+        cache.hot_reload();
+        // the watcher dies: the reloader leaves its loop and parks in the destructor of its source
+        src.drop_sender();
+        let mut spins = 0u64;
+        while !gate.parked.load(SeqCst) && spins < 20_000_000 {
+            spins += 1;
+            std::hint::spin_loop();
+        }
+        let sb = crate::props::common::SpinBarrier::new(callers as usize + 1);
+        std::thread::scope(|s| {
+            for k in 0..callers as u32 {
+                let (cache, sb) = (&cache, &sb);
+                s.spawn(move || {
+                    sb.wait();
+                    for _ in 0..((round * 13 + k * 29) % 61) * 3 {
+                        std::hint::spin_loop();
+                    }
+                    // a caller that is never released leaves every thread asleep: blocked-state detector
+                    cache.hot_reload();
+                    cache.hot_reload();
+                });
+            }
+            sb.wait();
+            for _ in 0..((round * 7) % 53) * 3 {
+                std::hint::spin_loop();
+            }
+            gate.released.store(true, SeqCst);
+        });
+    }
+}
 
 pub struct C08;
 
@@ -57,7 +166,7 @@ impl Prop for C08 {
 
     fn rule(&self) -> String {
         "cases = (1..6 compound nodes whose recipes load leaves and get_cached ANY node - themselves and each other, so that look-up cycles of every length arise - with generated busy work in the loader; \
-         1..8 threads each calling hot_reload 20..300 times; 0..3 threads loading and inserting concurrently; bursts of notified edits (single or batched) sent meanwhile; optionally a node that after a rewrite loads 100..1500 never-seen assets within one reload; in a fifth of the cases the source drops its event sender after 0..3 rounds (a watcher that dies: the reloader thread ends and the remaining calls must degrade to no-ops)). \
+         1..8 threads each calling hot_reload 20..300 times; 0..3 threads loading and inserting concurrently; bursts of notified edits (single or batched) sent meanwhile; optionally a node that after a rewrite loads 100..1500 never-seen assets within one reload; in a fifth of the cases the source drops its event sender after 0..3 rounds (a watcher that dies: the reloader thread ends and the remaining calls must degrade to no-ops); in a third of the cases 100..600 notifications of one leaf are then sent back to back while one caller keeps calling (one call = one pass: the leaf is read at most once per call); in a quarter 100..500 rounds of {fresh cache whose reloader is parked in the destructor of its source after the sender was dropped, then released at a swept instant against 2..6 callers entering hot_reload}). \
          Oracle: every call returns (the supervisor's blocked-state detector: all threads asleep with zero CPU while the case is unfinished = deadlock; never a timeout), the process does not abort (worker exit status), \
          and the reloader never loads or reads while no thread is inside hot_reload (a caller released by somebody else's answer leaves its own request to be served later), and after all callers returned a freshly notified change is still applied within 4000 calls (unless the watcher died). \
          non-trivial = at least two hot_reload requests were in flight at once, or a look-up cycle received an event; distinct = different canonical JSON"
@@ -101,11 +210,13 @@ impl Prop for C08 {
                     any::<bool>(),
                     prop_oneof![3 => Just(None), 1 => (0u16..20, 100u16..1500).prop_map(Some)],
                     prop_oneof![4 => Just(None), 1 => (0u8..4).prop_map(Some)],
+                    prop_oneof![2 => Just(0u16), 1 => 100u16..600],
+                    prop_oneof![3 => Just(0u16), 1 => 100u16..500],
                 )
             })
-            .prop_map(|(kinds, recipes, callers, iters, loaders, bursts, batched, pack, watcher_dies_after)| {
+            .prop_map(|(kinds, recipes, callers, iters, loaders, bursts, batched, pack, watcher_dies_after, stream, stop_races)| {
                 let nodes = kinds.iter().enumerate().map(|(i, k)| NodeDef { kind: *k, id: format!("n{i}"), ops: recipes[i].clone() }).collect();
-                to_case(&Case { nodes, callers, iters, loaders, bursts, batched, pack, watcher_dies_after })
+                to_case(&Case { nodes, callers, iters, loaders, bursts, batched, pack, watcher_dies_after, stream, stop_races })
             })
             .boxed()
     }
@@ -167,6 +278,9 @@ impl Prop for C08 {
             });
             if harness {
                 return;
+            }
+            if matches!(_entry, OwnedEntry::File(i, x) if i == "l0" && x == "la") {
+                STREAM_READS.fetch_add(1, SeqCst);
             }
             let f = FINISHED.load(SeqCst);
             let s = STARTED.load(SeqCst);
@@ -262,6 +376,40 @@ impl Prop for C08 {
         STARTED.fetch_add(1, SeqCst);
         cache.hot_reload();
         FINISHED.fetch_add(1, SeqCst);
+        // a sustained stream of notifications: a call is one pass
+        if c.stream > 0 && c.watcher_dies_after.is_none() && !out.failed() {
+            let _ = w.top_load(Kind::Leaf, "l0");
+            let feeding = AtomicBool::new(true);
+            let mut worst = 0u64;
+            std::thread::scope(|s| {
+                let feeding = &feeding;
+                let n = c.stream;
+                s.spawn(move || {
+                    HARNESS_TIDS.lock().unwrap().push(crate::procfs::gettid());
+                    for k in 0..n {
+                        src.tree().put("l0", "la", format!("ok:s{k}").into_bytes(), Variant::Buffer);
+                        src.send(&OwnedEntry::File("l0".to_string(), "la".to_string()));
+                    }
+                    feeding.store(false, SeqCst);
+                });
+                let mut calls = 0u32;
+                while feeding.load(SeqCst) || calls < 3 {
+                    let before = STREAM_READS.load(SeqCst);
+                    STARTED.fetch_add(1, SeqCst);
+                    cache.hot_reload();
+                    FINISHED.fetch_add(1, SeqCst);
+                    worst = worst.max(STREAM_READS.load(SeqCst) - before);
+                    calls += 1;
+                    if calls > 1_000_000 {
+                        break;
+                    }
+                }
+            });
+            if worst > 1 {
+                out.fail("several-passes-in-one-call", format!("while {} notifications of one leaf were sent back to back, a single hot_reload call read that leaf's file {worst} times: one call must be one pass (a bounded amount of work), whatever arrives meanwhile", c.stream));
+            }
+            out.label("sustained-notification-stream");
+        }
         // and the reloader still works: a change notified now is applied within a bounded number of calls
         // (a reloader wedged by a caller that left with somebody else's answer would never apply it)
         let mut w = w;
@@ -325,10 +473,15 @@ impl Prop for C08 {
         }
         let _ = hot::LEAVES;
         drop(w);
+        memsrc::set_observer(None);
+        if c.stop_races > 0 && !out.failed() {
+            stop_races(c.stop_races, 2 + (c.callers % 5));
+            out.label("reloader-stops-under-callers");
+        }
         out
     }
 
     fn required_labels(&self) -> Vec<&'static str> {
-        vec!["requests-queued>=2", "lookup-cycle", "concurrent-loaders", "watcher-died-while-callers-run"]
+        vec!["requests-queued>=2", "lookup-cycle", "concurrent-loaders", "watcher-died-while-callers-run", "sustained-notification-stream", "reloader-stops-under-callers"]
     }
 }
